@@ -289,3 +289,17 @@ def c11(run):
                         "agreement is checked for library-owned selectors/negotiators; the client's random key is masked before request bytes are compared"]
     records_check(run, b, "c11", "C11Records")
     return run.finish("exploration")
+
+
+@prop("C17")
+def c17(run):
+    b = run.build()
+    vlib.tlc_model(run, "Pools", workers=8)
+    vlib.tlc_model(run, "Pools", cfg="Pools_3", workers=8)
+    r = vlib.tlc_model(run, "Pools", cfg="Pools_alias", workers=4, expect_ok=False)
+    if r["ok"] or "ResultsStable is violated" not in r["out"]:
+        raise Infra("anti-vacuity: the aliasing Pools model should violate ResultsStable")
+    run.assumptions += ["single P (GOMAXPROCS=1) and GC disabled during the driver so that sync.Pool hands back the objects that were put",
+                        "results are compared through digests taken by re-reading the very objects that were returned (strings, []byte, httphead.Option)"]
+    traces_check(run, b, "c17", "TracePools")
+    return run.finish("model_checking")
